@@ -184,6 +184,6 @@ def RemoveUnilateral_guard_5 (targetTokenAmtAfterFee : Int) (msg_MinToken : Coin
 def untranslated : List String := []
 
 /-- names of the translated definitions -/
-def translated : List String := ["GetInputPrice", "GetOutputPrice", "AddLiquidity_mintLiquidityAmt_1", "AddLiquidity_mintLiquidityAmt_2", "AddLiquidity_mintLiquidityAmt_3", "AddLiquidity_depositAmt_1", "AddLiquidity_guard_1", "AddLiquidity_guard_2", "AddLiquidity_guard_3", "AddLiquidity_guard_4", "AddLiquidity_guard_5", "AddLiquidity_guard_6", "RemoveLiquidity_irisWithdrawnAmt_1", "RemoveLiquidity_tokenWithdrawnAmt_1", "RemoveLiquidity_guard_1", "RemoveLiquidity_guard_2", "RemoveLiquidity_guard_3", "RemoveLiquidity_guard_4", "RemoveLiquidity_guard_5", "AddUnilateral_numerator_1", "AddUnilateral_denominator_1", "AddUnilateral_square_1", "AddUnilateral_mintLptAmt_1", "AddUnilateral_guard_1", "AddUnilateral_guard_2", "RemoveUnilateral_feeNumerator_1", "RemoveUnilateral_feeDenominator_1", "RemoveUnilateral_targetTokenNumerator_1", "RemoveUnilateral_targetTokenDenominator_1", "RemoveUnilateral_targetTokenAmtAfterFee_1", "RemoveUnilateral_guard_1", "RemoveUnilateral_guard_2", "RemoveUnilateral_guard_3", "RemoveUnilateral_guard_4", "RemoveUnilateral_guard_5"]
+def translated : List String := ["GetInputPrice(inputAmt,inputReserve,outputReserve,fee)", "GetOutputPrice(outputAmt,inputReserve,outputReserve,fee)", "AddLiquidity_mintLiquidityAmt_1(msg_ExactStandardAmt)", "AddLiquidity_mintLiquidityAmt_2(msg_ExactStandardAmt)", "AddLiquidity_mintLiquidityAmt_3(liquidity,msg_ExactStandardAmt,standardReserveAmt)", "AddLiquidity_depositAmt_1(tokenReserveAmt,msg_ExactStandardAmt,standardReserveAmt)", "AddLiquidity_guard_1(standardDenom,msg_MaxToken)", "AddLiquidity_guard_2(mintLiquidityAmt,msg_MinLiquidity)", "AddLiquidity_guard_3(mintLiquidityAmt,msg_MinLiquidity)", "AddLiquidity_guard_4(standardReserveAmt,tokenReserveAmt,liquidity)", "AddLiquidity_guard_5(mintLiquidityAmt,msg_MinLiquidity)", "AddLiquidity_guard_6(depositAmt,msg_MaxToken)", "RemoveLiquidity_irisWithdrawnAmt_1(msg_WithdrawLiquidity,standardReserveAmt,liquidityReserve)", "RemoveLiquidity_tokenWithdrawnAmt_1(msg_WithdrawLiquidity,tokenReserveAmt,liquidityReserve)", "RemoveLiquidity_guard_1(standardReserveAmt,msg_MinStandardAmt)", "RemoveLiquidity_guard_2(tokenReserveAmt,msg_MinToken)", "RemoveLiquidity_guard_3(liquidityReserve,msg_WithdrawLiquidity)", "RemoveLiquidity_guard_4(irisWithdrawCoin,msg_MinStandardAmt)", "RemoveLiquidity_guard_5(tokenWithdrawCoin,msg_MinToken)", "AddUnilateral_numerator_1(deltaFeeUnilateral)", "AddUnilateral_denominator_1()", "AddUnilateral_square_1(denominator,tokenBalanceAmt,numerator,exactTokenAmt,lptBalanceAmt)", "AddUnilateral_mintLptAmt_1(squareBigInt,lptBalanceAmt)", "AddUnilateral_guard_1(msg_ExactToken,msg_CounterpartyDenom,read_k_GetStandardDenom_ctx)", "AddUnilateral_guard_2(mintLptAmt,msg_MinLiquidity)", "RemoveUnilateral_feeNumerator_1(deltaFeeUnilateral)", "RemoveUnilateral_feeDenominator_1()", "RemoveUnilateral_targetTokenNumerator_1(lptBalanceAmt,msg_ExactLiquidity,targetBalanceAmt,feeNumerator)", "RemoveUnilateral_targetTokenDenominator_1(lptBalanceAmt,feeDenominator)", "RemoveUnilateral_targetTokenAmtAfterFee_1(targetTokenNumerator,targetTokenDenominator)", "RemoveUnilateral_guard_1(msg_MinToken,msg_CounterpartyDenom,read_k_GetStandardDenom_ctx)", "RemoveUnilateral_guard_2(lptBalanceAmt,msg_ExactLiquidity)", "RemoveUnilateral_guard_3(lptBalanceAmt,msg_ExactLiquidity)", "RemoveUnilateral_guard_4(targetBalanceAmt,msg_MinToken)", "RemoveUnilateral_guard_5(targetTokenAmtAfterFee,msg_MinToken)"]
 
 end Irismod.Gen.PureCoinswap
